@@ -351,7 +351,11 @@ def check_property(ctx, pid, replay_file=None):
         log('TOOL-ERROR', str(e))
         return 2
     if spec.get('pre'):
-        extra = spec['pre'](ctx)
+        try:
+            extra = spec['pre'](ctx)
+        except ToolError as e:
+            log('TOOL-ERROR', str(e))
+            return 2
         results.append(('pre', {'sigs': extra, 'instances': 1, 'events': 0, 'samples': [], 'nontrivial': {}}))
     errors = [e for _, r in results for e in r.get('errors', [])]
     if errors:
@@ -523,6 +527,16 @@ def main(root, argv):
         log(json.dumps({k: v for k, v in r.items() if k not in ('sigs', 'samples')}, indent=1))
         for k, v in sorted(summ.items()):
             log('%6d  %s' % (v, k))
+        return 0
+    if cmd == 'mccount':
+        # size of the TLC-enumerated part of a corpus (no replay): behaviours and time per design-check run
+        defs = corpora.corpus_defs(ctx.tier)
+        d = defs[args[1]]
+        for k, m in enumerate(d.get('mc', [])):
+            cfg_text = mc_cfg(m['consts'], m['invariants'], m['properties'], spec=m.get('spec', 'Spec'))
+            rc, out, wall = run_tlc(ctx, m['module'], cfg_text, os.path.join(ctx.work, 'mccount_%d' % k), workers=8, timeout=1200)
+            pr = parse_mc_output(out)
+            log('%s run %d: states %d behaviours %d completed %s %.0fs %s' % (args[1], k, pr['states'], len(pr['replay']), pr['completed'], wall, pr['error'] or ''))
         return 0
     if cmd == 'selftest':
         from . import selftest
